@@ -23,7 +23,7 @@ pub static SPEC: PropSpec = PropSpec {
     case_cpu_s: 120,
     shards: 0,
     run,
-    floors: &[("uses_checked", 5_000, 150_000), ("programs_agree", 150, 4_000), ("leaks_rejected", 150, 4_000), ("random_programs_agree", 60, 1_500), ("callee_programs_agree", 100, 2_500), ("calls_of_locals_named_like_functions", 2_000, 50_000)],
+    floors: &[("uses_checked", 5_000, 150_000), ("programs_agree", 150, 4_000), ("leaks_rejected", 150, 4_000), ("random_programs_agree", 60, 1_500), ("callee_programs_agree", 100, 2_500), ("calls_of_locals_named_like_functions", 2_000, 50_000), ("two_package_programs_agree", 60, 1_500), ("two_package_leaks_rejected", 20, 500)],
     finish: None,
 };
 
@@ -611,6 +611,79 @@ fn run(ctx: &mut Ctx) {
                 c.sample(json!({"workload": "callee shadowing", "uses": uses, "source_head": util::truncate(&print_program(&prog, PrintOpts::default()), 900)}));
             }
         });
+    }
+    // the same programs as the entry file of a two-package project whose imported package declares enums with
+    // variants spelled like the local names (x, y, z, q, k, ...; not like Main's top-level functions, whose Go names would collide with the variants' Go types - C19's business): an imported package's variants are reached
+    // through its name only, so every use still means the local binder, and the illegal uses of `q` stay unresolved
+    let imported = "package Lib\n\nenum Names { x, y, z, q, k }\n\nenum Mixed { sh, other, acc, cnt, p, n }\n\nfn lib_id(v: int32) -> int32 { v }\n";
+    let n = tier.pick(96u64, 2_400u64) / ctx.nshards as u64 + 1;
+    for j in 0..n {
+        let mut rng = Rng::keyed(seed, if j % 2 == 0 { "c05-scope" } else { "c05-callee" }, ctx.shard as u64, j / 2);
+        let (prog, uses) = if j % 2 == 0 {
+            let (p, u, _, _) = scope_program(&mut rng, None).unwrap();
+            (p, u)
+        } else {
+            let (p, u, _, _) = callee_program(&mut rng);
+            (p, u)
+        };
+        let label = format!("two-package/{}/{}", ctx.shard, j);
+        ctx.case(&label.clone(), |c| {
+            let exp = crate::gl::eval::run_program(&prog, 2_000_000);
+            if exp.stop.is_some() {
+                c.inconclusive("refsem did not finish the scope program");
+                return;
+            }
+            let main_src = format!("package Main\nimport Lib\n\n{}", print_program(&prog, PrintOpts::default()));
+            let files = vec![(std::path::PathBuf::from("Lib/lib.gom"), imported.to_string()), (std::path::PathBuf::from("main.gom"), main_src)];
+            if let Some((out, term, _)) = crate::exec::run_project(c, "C05", &label, &files, 4_000_000) {
+                if out == exp.stdout && matches!(term, crate::goexec::Term::Ok) {
+                    c.count("two_package_programs_agree", 1);
+                    c.count("uses_checked", uses);
+                } else {
+                    c.violation(
+                        "C05:stdout-differs:imported-package-with-equally-named-variants".to_string(),
+                        "a use of a local prints another value when an imported package declares a variant of that name".to_string(),
+                        json!({"label": label, "files": files.iter().map(|(p, t)| json!({"path": p.display().to_string(), "text": t})).collect::<Vec<_>>(), "expected": util::truncate(&exp.stdout, 2000), "got": util::truncate(&out, 2000)}),
+                    );
+                }
+            }
+        });
+        // negative twin: the unbound `q` must stay unresolved although Lib has a variant `q`
+        if j % 2 == 0 {
+            let plan = [LeakPlan::AfterScope, LeakPlan::BeforeLet, LeakPlan::Sibling][((j / 2) % 3) as usize];
+            let mut rng = Rng::keyed(seed, "c05-leak2", ctx.shard as u64, j);
+            let Some((prog, _, _, kind)) = scope_program(&mut rng, Some(plan)) else { continue };
+            let label = format!("two-package-leak/{}/{}", ctx.shard, j);
+            ctx.case(&label.clone(), |c| {
+                let main_src = format!("package Main\nimport Lib\n\n{}", print_program(&prog, PrintOpts::default()));
+                let files = vec![(std::path::PathBuf::from("Lib/lib.gom"), imported.to_string()), (std::path::PathBuf::from("main.gom"), main_src.clone())];
+                let root = crate::util::scratch_base().join(format!("c05l-{}-{}", std::process::id(), util::hex64(hash_str(&main_src))));
+                let _ = std::fs::remove_dir_all(&root);
+                let order: Vec<usize> = (0..files.len()).collect();
+                if crate::projgen::materialize(&root, &files, &order).is_err() {
+                    c.inconclusive("cannot materialise project");
+                    return;
+                }
+                runner::note_input(&main_src);
+                let whole = runner::guard(|| crate::projdrv::observe_whole(&root));
+                let _ = std::fs::remove_dir_all(&root);
+                match whole {
+                    Ok(o) => {
+                        let ok = o.get("whole/result").map_or(false, |r| r == "ok");
+                        let d = o.get("whole/diagnostics").cloned().unwrap_or_default();
+                        if ok {
+                            c.violation(format!("C05:leaked-binding-accepted:{}:two-package", kind), format!("a use of `q` outside the scope of its binder ({}) is accepted when an imported package declares a variant `q`", kind), json!({"label": label, "kind": kind, "source": main_src, "library": imported}));
+                        } else if d.contains("Unresolved") && d.contains('q') {
+                            c.count("leaks_rejected", 1);
+                            c.count("two_package_leaks_rejected", 1);
+                        } else {
+                            c.violation(format!("C05:leak-rejected-without-unresolved-name:{}:two-package", kind), format!("the out-of-scope use of `q` is rejected, but not as an unresolved name: {}", util::truncate(&d, 200)), json!({"label": label, "kind": kind, "source": main_src, "library": imported, "diagnostics": d}));
+                        }
+                    }
+                    Err(p) => c.violation(format!("C05:leak-crashes-compiler:{}:two-package", kind), format!("the out-of-scope use of `q` crashes the compiler at {}", p.site), json!({"label": label, "kind": kind, "source": main_src})),
+                }
+            });
+        }
     }
     // generated programs with the three-name pool
     let n = tier.pick(120u64, 3_000u64) / ctx.nshards as u64 + 1;
